@@ -85,7 +85,7 @@ pub fn cases(ctx: &Ctx) -> Vec<Case> {
         return v;
     }
     let mut rng = Rng::derive(ctx.seed, &[0xC16]);
-    let n = if ctx.quick() { 1600 } else { 20000 };
+    let n = if ctx.quick() { 1600 } else { 60000 };
     for i in 0..n {
         let nn = 1 + rng.usize_below(7);
         let mut names = BTreeSet::new();
